@@ -244,12 +244,16 @@ static char *read_text(int doc, size_t *len)
 		t = strdup("{\"a\":tru");
 	else if (doc == NSIZES + 3)
 		t = strdup("12");
-	else
+	else if (doc == NSIZES + 4)
 		t = strdup("");
+	else if (doc == NSIZES + 5)
+		t = strdup("[[[1]]]"); /* innermost value enclosed by exactly 3 containers: refused at limit 3, accepted at 4 */
+	else
+		t = strdup("[1]");     /* refused at limit 1 */
 	*len = strlen(t);
 	return t;
 }
-#define NREADDOCS (NSIZES + 5)
+#define NREADDOCS (NSIZES + 7)
 static sb_t dref, dgot;
 static void explore_read(int doc, int depth, int from_file, int bound)
 {
@@ -326,22 +330,25 @@ static void explore_read(int doc, int depth, int from_file, int bound)
 
 static void enumerate(void)
 {
-	static const int flagsets[3] = {JSON_C_TO_STRING_PLAIN, JSON_C_TO_STRING_SPACED, JSON_C_TO_STRING_PRETTY | JSON_C_TO_STRING_PRETTY_TAB};
+	static const int flagsets[5] = {JSON_C_TO_STRING_PLAIN, JSON_C_TO_STRING_SPACED, JSON_C_TO_STRING_PRETTY | JSON_C_TO_STRING_PRETTY_TAB, JSON_C_TO_STRING_COLOR,
+	                                JSON_C_TO_STRING_PRETTY | JSON_C_TO_STRING_SPACED | JSON_C_TO_STRING_COLOR | JSON_C_TO_STRING_NOSLASHESCAPE | JSON_C_TO_STRING_NOZERO};
 	int bound = mc_tier ? 4 : 2;
 	for (int doc = 0; doc <= NSIZES; doc++)
-		for (int f = 0; f < 3; f++)
+		for (int f = 0; f < 5; f++)
 			for (int to_file = 0; to_file < 2; to_file++)
 			{
-				int small = doc < 3; /* <= 12 bytes: all compositions */
+				int small = doc < 3 && !(flagsets[f] & JSON_C_TO_STRING_COLOR); /* <= 12 bytes: all compositions (the colour escapes add 11 bytes) */
 				all_sizes = small;
 				explore_write(doc, flagsets[f], to_file, small ? 99 : (doc >= 8 && doc < NSIZES && bound > 2) ? (doc == 10 ? 2 : 3) : bound);
 			}
 	for (int doc = 0; doc < NREADDOCS; doc++)
-		for (int variant = 0; variant < 4; variant++)
+		for (int variant = 0; variant < 7; variant++)
 		{
 			int small = doc < 3 || doc >= NSIZES + 1;
 			all_sizes = small;
-			int depth = variant == 1 ? 3 : variant == 2 ? 32 : -1;
+			if (variant >= 4 && doc < NSIZES)
+				continue; /* the extra depth limits (1, 4, 0) on the small documents only */
+			int depth = variant == 1 ? 3 : variant == 2 ? 32 : variant == 4 ? 1 : variant == 5 ? 4 : variant == 6 ? 0 : -1;
 			explore_read(doc, depth, variant == 3, small ? 99 : (doc >= 8 && doc < NSIZES && bound > 2) ? (doc == 10 ? 2 : 3) : bound);
 		}
 	/* argument errors and unopenable files */
